@@ -201,6 +201,19 @@ def run(ctx):
                 C.check(not rd, 'C16-MUST-exclusive', '%s|%s|through-a-write-guard' % (b.short, P.bodies[cid].short.split('::')[-1]), '%s calls the mutating %s through a READ guard of the element: two threads can run it at the same time and interleave '
                         '(name, index and references end up naming different paths), which no serial order produces' % (b.short, P.bodies[cid].short), b.where(pos),
                         sample={'fn': b.short, 'callee': P.bodies[cid].short, 'guard': 'write'} if nex % 8 == 1 else None)
+    # set_reference_target: the reverse index is brought up to date under the SAME element write guard that covers the text store - two
+    # concurrent calls on one reference otherwise interleave (text a->b->c, index b->c then a->b) and leave an entry no serial order produces
+    from locks import BodyLocks as _BL
+    srt = P.find('Element::set_reference_target')
+    if srt is None:
+        C.anchor_missing('C16-MUST-atomic', 'Element::set_reference_target')
+    else:
+        L_ = _BL(P, srt)
+        idx = [(pos, t) for pos, t in srt.iter_calls() if call_matches(t, r'AutosarModel>::(fix_reference_origins|add_reference_origin)$')]
+        bare = [pos for pos, t in idx if not any(a.desc().startswith('Element:W') for a in L_.held_at(pos))]
+        C.check(bool(idx) and not bare, 'C16-MUST-atomic', 'set_reference_target|index-update-under-the-element-guard',
+                'set_reference_target updates reference_origins while it does not hold the write guard of the reference element (the guard that covers the store of the new text): concurrent calls on the same reference can leave the element under a path its text does not have',
+                srt.where(bare[0]) if bare else '%s:%d' % (srt.file, srt.line), sample={'fn': 'Element::set_reference_target', 'index_calls': len(idx), 'guard': 'Element:W held at each'})
     C.floor('C16-MUST-exclusive.sites', nex, 10)
     C.floor('C16-FLOW-lockfail.lock-error-functions', len(can), 20)
     C.extra['pairs_examined'] = n_all
